@@ -99,8 +99,8 @@ def unop(file, macro, k, name, Tr, m, A, C, req, post, props):
 def emit_unary(o):
     s = []
     s.append(f"// ---- {o['file']}.rs : {o['macro']}! #{o['k']}  ({o['Tr']} {o['A']} -> {o['C']})\n")
-    s.append(f"pub open spec fn {o['name']}_req(a: &{o['A'].lstrip('&')}) -> bool {{ {o['req']} }}\n")
-    s.append(f"pub open spec fn {o['name']}_post(a: &{o['A'].lstrip('&')}, r: &{o['C']}) -> bool {{ {o['post']} }}\n\n")
+    s.append(f"pub closed spec fn {o['name']}_req(a: &{o['A'].lstrip('&')}) -> bool {{ {o['req']} }}\n")
+    s.append(f"pub closed spec fn {o['name']}_post(a: &{o['A'].lstrip('&')}, r: &{o['C']}) -> bool {{ {o['post']} }}\n\n")
     s.append(f"//@ extract rust/dual/dual_ops/{o['file']}.rs :: macro {o['macro']} #{o['k']}\n")
     s.append(f"//@ rename {o['name']}\n")
     s.append(f"//@ props {o['props']}\n")
@@ -152,8 +152,8 @@ def emit(o):
         return emit_unary(o)
     s = []
     s.append(f"// ---- {o['file']}.rs : {o['macro']}! #{o['k']}  ({o['A']} {o['Tr']} {o['B']} -> {o['C']})\n")
-    s.append(f"pub open spec fn {o['name']}_req(a: {o['A']}, b: {o['B']}) -> bool {{ {o['req']} }}\n")
-    s.append(f"pub open spec fn {o['name']}_post(a: {o['A']}, b: {o['B']}, r: &{o['C']}) -> bool {{ {o['post']} }}\n\n")
+    s.append(f"pub closed spec fn {o['name']}_req(a: {o['A']}, b: {o['B']}) -> bool {{ {o['req']} }}\n")
+    s.append(f"pub closed spec fn {o['name']}_post(a: {o['A']}, b: {o['B']}, r: &{o['C']}) -> bool {{ {o['post']} }}\n\n")
     s.append(f"//@ extract rust/dual/dual_ops/{o['file']}.rs :: macro {o['macro']} #{o['k']}\n")
     s.append(f"//@ rename {o['name']}\n")
     s.append(f"//@ props {o['props']}\n")
